@@ -7,6 +7,10 @@ from common import sx
 from e2e import canon, concat_parts, exec_expr, try_, _short
 
 
+class OutOfModel(Exception):
+    pass
+
+
 class FusedExporter:
     """Real Fused expression -> (self, group, deps) of coq/Fusion.v, and its _task(index) dict -> model vocabulary."""
 
@@ -25,6 +29,13 @@ class FusedExporter:
         from dask.utils import apply
         deps = {d._name: d for d in e.dependencies()}
         t = e._task(0)
+        # the model's plain_task gives every partition of a member the same call shape; members whose task depends on the
+        # partition number (label indexing: a call at the ends of the slice, an alias inside) are outside it
+        def shape(x):
+            return (type(x).__name__, len(x) if isinstance(x, tuple) else 0, callable(x[0]) if isinstance(x, tuple) and x else False)
+        for i in range(1, e.npartitions):
+            if shape(e._task(i)) != shape(t):
+                raise OutOfModel("%s: task shape depends on the partition number" % type(e).__name__)
         targs = list(t[2]) if (t and t[0] is apply) else list(t[1:])
         args = []
         for pos, a in enumerate(targs):
@@ -97,7 +108,12 @@ def fused_nodes(expr):
 
 def check_fused(run, model, fused, tag, stats):
     ex = FusedExporter()
-    mem = ex.member(fused)
+    try:
+        mem = ex.member(fused)
+    except OutOfModel as exn:
+        stats["out_of_model"] = stats.get("out_of_model", 0) + 1
+        run.count(("fused-out-of-model", str(exn)))
+        return False
     self_n, group, deps = mem[1], mem[3], mem[4]
     reqs = ["(valid_group %d %s %s)" % (self_n, sx(group), sx(deps))]
     idxs = sorted(set([0, fused.npartitions - 1, fused.npartitions // 2]))
@@ -144,6 +160,18 @@ def scenarios(rt):
         out.append(("blockwise-between-shuffles", (a.shuffle("y") + 1).x.sum(), (pa + 1).x.sum()))
         out.append(("filter-chain", (lambda t: t[t.x > 3][["y"]] * 2)(a + 1), (lambda t: t[t.x > 3][["y"]] * 2)(pa + 1)))
         out.append(("assign-chain", (a.assign(z=a.x + a.y) + 1)[["z", "x"]], (pa.assign(z=pa.x + pa.y) + 1)[["z", "x"]]))
+        # stacked chains whose tops feed several consumers: several fusion passes substitute into each other's groups
+        d2 = (a.x + 1).abs()
+        d1 = (d2 * 3).abs()
+        top = d1 * 2 + 1
+        p2 = (pa.x + 1).abs(); p1 = (p2 * 3).abs(); ptop = p1 * 2 + 1
+        out.append(("three-stacked-chains", rt.dx.concat([top, d1.repartition(npartitions=max(1, npart - 1)), d2.repartition(npartitions=1)]), pd.concat([ptop, p1, p2])))
+        out.append(("three-stacked-chains-reductions", top.sum() + d1.max() + d2.min(), ptop.sum() + p1.max() + p2.min()))
+        out.append(("stacked-chains-shared-by-shuffle", (top.to_frame("t").assign(u=d1, v=d2)).shuffle("v").t.sum() + d1.sum(), ptop.sum() + p1.sum()))
+        # label indexing and string literals inside fused groups
+        out.append(("loc-slice-in-group", a.loc[3:9] + 1, pa.loc[3:9] + 1))
+        out.append(("loc-list-in-group", (a + 1).loc[[2, 7, 10]] * 2, (pa + 1).loc[[2, 7, 10]] * 2))
+        out.append(("placeholder-like-literal", a.assign(s="_0").fillna("_1").rename(columns={"s": "t"}), pa.assign(s="_0").fillna("_1").rename(columns={"s": "t"})))
         single = rt.dx.from_pandas(pb.iloc[:1], npartitions=1)
         out.append(("nested-with-1-partition-dep", (a.x + 1).optimize(fuse=True) * 2 + single.x.sum(), (pa.x + 1) * 2 + pb.iloc[:1].x.sum()))
     return out
